@@ -1179,3 +1179,57 @@ V(id='c15-benign-rebuild-next-line', prop='C15', file='mpmath/libmp/libmpi.py',
   old="        (a1,a2) = mpi_add((a1,a2), mpi_one, wp); z = (a1,a2), (b1,b2)",
   new="        (a1,a2) = mpi_add((a1,a2), mpi_one, wp)\n        z = ((a1,a2), (b1,b2))",
   expect='silent')
+
+# ------------------------------------------------ round-2 rules: A-R4r, D-R1f, D-ODE, Y-R2 order -------
+V(id='c11-decorator-with-self', prop='C11', file='mpmath/ctx_mp.py',
+  old="""            orig = self.ctx.prec
+            try:
+                if self.precfun:
+                    self.ctx.prec = self.precfun(self.ctx.prec)
+                else:
+                    self.ctx.dps = self.dpsfun(self.ctx.dps)
+                if self.normalize_output:
+                    v = f(*args, **kwargs)
+                    if type(v) is tuple:
+                        return tuple([+a for a in v])
+                    return +v
+                else:
+                    return f(*args, **kwargs)
+            finally:
+                self.ctx.prec = orig""",
+  new="""            with self:
+                v = f(*args, **kwargs)
+                if self.normalize_output:
+                    if type(v) is tuple:
+                        return tuple([+a for a in v])
+                    return +v
+                return v""",
+  expect='fire:A-R4r:PrecisionManager.__call__.g')
+V(id='c11-shared-manager-attribute', prop='C11', file='mpmath/calculus/polynomials.py',
+  old="    with ctx.extraprec(extraprec):", new="    with ctx._polyroots_manager:",
+  expect='fire:A-R4r:polyroots')
+V(id='c11-benign-local-manager', prop='C11', file='mpmath/calculus/polynomials.py',
+  old="    with ctx.extraprec(extraprec):", new="    mgr = ctx.extraprec(extraprec)\n    with mgr:",
+  expect='silent')
+V(id='c33-bernoulli-huge-cached-at-prec', prop='C33', file='mpmath/libmp/gammazeta.py',
+  old="        if n - m > 10:\n            return mpf_bernoulli_huge(n, prec, rnd)",
+  new="        if n - m > 10:\n            numbers[n] = v = mpf_bernoulli_huge(n, prec, rnd)\n            return v",
+  expect='fire:D-R1f:mpf_bernoulli')
+V(id='c33-benign-bernoulli-huge-cached-at-wp', prop='C33', file='mpmath/libmp/gammazeta.py',
+  old="        if n - m > 10:\n            return mpf_bernoulli_huge(n, prec, rnd)",
+  new="        if n - m > 10:\n            numbers[n] = v = mpf_bernoulli_huge(n, wp)\n            return mpf_pos(v, prec, rnd or round_floor)",
+  expect='silent')
+V(id='c33-odefun-bisect-left', prop='C33', file='mpmath/calculus/odes.py',
+  edits=[("from bisect import bisect\n", "from bisect import bisect_left\n"),
+         ("        n = bisect(series_boundaries, x)", "        n = bisect_left(series_boundaries, x)")],
+  expect='fire:D-ODE:get_series')
+V(id='c37-gmpy-mul-int-guard-order', prop='C37', file='mpmath/libmp/libmpf.py',
+  old="def gmpy_mpf_mul_int(s, n, prec, rnd=round_fast):\n    \"\"\"Multiply by a Python integer.\"\"\"\n    sign, man, exp, bc = s\n    if not man:\n        return mpf_mul(s, from_int(n), prec, rnd)\n    if not n:\n        return fzero\n",
+  new="def gmpy_mpf_mul_int(s, n, prec, rnd=round_fast):\n    \"\"\"Multiply by a Python integer.\"\"\"\n    if not n:\n        return fzero\n    sign, man, exp, bc = s\n    if not man:\n        return mpf_mul(s, from_int(n), prec, rnd)\n",
+  expect='fire:Y-R2:gmpy_mpf_mul_int')
+V(id='c37-benign-both-reordered', prop='C37', file='mpmath/libmp/libmpf.py',
+  edits=[("def gmpy_mpf_mul_int(s, n, prec, rnd=round_fast):\n    \"\"\"Multiply by a Python integer.\"\"\"\n    sign, man, exp, bc = s\n",
+          "def gmpy_mpf_mul_int(s, n, prec, rnd=round_fast):\n    \"\"\"Multiply by a Python integer.\"\"\"\n    sign, man, exp, bc = s\n    assert prec >= 0\n"),
+         ("def python_mpf_mul_int(s, n, prec, rnd=round_fast):\n    \"\"\"Multiply by a Python integer.\"\"\"\n    sign, man, exp, bc = s\n",
+          "def python_mpf_mul_int(s, n, prec, rnd=round_fast):\n    \"\"\"Multiply by a Python integer.\"\"\"\n    sign, man, exp, bc = s\n    assert prec >= 0\n")],
+  expect='silent')
